@@ -26,7 +26,7 @@ def run(tier, seed, replay=None):
     if m0.ok or not m0.deadlock:
         raise Inconclusive("OneShot model no longer shows the deadlock of the wait-only-on-the-function design (vacuity guard)")
     recs = os.path.join(sc, "c15.ndjson")
-    vlib.vh(["c15", "-out", recs, "-seed", seed, "-rand", 2000 if quick else 30000, "-maxdepth", 14 if quick else 22], timeout=1700)
+    vlib.vh(["c15", "-out", recs, "-seed", seed, "-rand", 2000 if quick else 150000, "-maxdepth", 14 if quick else 24], timeout=1700)
     bad = os.path.join(sc, "c15bad.ndjson")
     t = vlib.tlc("Parse_Trace", "Parse_Trace.cfg", env={"RECS": recs, "OUT": bad}, workers=1, timeout=1700, heap="8g")
     if not t.ok or not os.path.exists(bad):
